@@ -743,7 +743,10 @@ func runBrokerPairs(r *h.Run, c h.Conf, kind string) {
 	// accepted it (the dial fails after the pending window), or accepted
 	// although nobody dials (the accept gives up); then the pair is issued
 	// properly - accept, 300 ms, dial - and must succeed
-	if c.TLS != "auto" && (r.Spec.P("retry", "") != "" || (r.Spec.P("fixed", "") != "1" && w.Range("retry/on", 4) == 0)) {
+	// (only on a connection that has not been through multi-second stalls: after
+	// those the session may be gone altogether - yamux's keep-alive - and the
+	// pairs above have been judged with that in mind)
+	if c.TLS != "auto" && w.InjectedTotal() < 2*time.Second && (r.Spec.P("retry", "") != "" || (r.Spec.P("fixed", "") != "1" && w.Range("retry/on", 4) == 0)) {
 		mode := r.Spec.P("retry", "")
 		if mode == "" {
 			mode = []string{"hd", "pd", "ha", "pa"}[w.Range("retry/mode", 4)]
@@ -823,7 +826,7 @@ func runBrokerPairs(r *h.Run, c h.Conf, kind string) {
 	// (server stopped) INSIDE the pending window, then the pair issued properly
 	// for the same ID: the dial must be told about the new listener, not the
 	// closed one
-	if kind == "grpc" && c.TLS != "auto" && (r.Spec.P("staleinfo", "") != "" || (r.Spec.P("fixed", "") != "1" && w.Range("staleinfo/on", 4) == 0)) {
+	if kind == "grpc" && c.TLS != "auto" && w.InjectedTotal() < 2*time.Second && (r.Spec.P("staleinfo", "") != "" || (r.Spec.P("fixed", "") != "1" && w.Range("staleinfo/on", 4) == 0)) {
 		hostAccepts := r.Spec.P("staleinfo", "") == "h" || (r.Spec.P("staleinfo", "") == "" && w.Range("staleinfo/dir", 2) == 0)
 		yid := uint32(3300)
 		yctx := fmt.Sprintf("broker=grpc re-accept-after-undialled-accept accept-side=%s", map[bool]string{true: "host", false: "plugin"}[hostAccepts])
